@@ -184,6 +184,12 @@ Fixpoint for_loop (step : dval -> dstate -> outcome signal) (l : list dval) (s :
                       end)
   end.
 
+(* generic in the IRI comparison [ideq a b cs] = a.Equals(b, cs), like module EqG of Model/Equal.v (builder b47); the
+   names without prefix after the module are the instance with iri_eqb, as abbreviations *)
+Module ItG.
+Section IdRel.
+  Variable ideq : bytes -> bytes -> bool -> bool.
+
 Section Exec.
   Variable E : callenv.
 
@@ -203,7 +209,7 @@ Section Exec.
         end
     | BTypeEq t u => obind (ev_texp s t) (fun x => obind (ev_texp s u) (fun y => Ok (bytes_eqb x y)))
     | BNumEq n m => obind (ev_nexp s n) (fun x => obind (ev_nexp s m) (fun y => Ok (Nat.eqb x y)))
-    | BIriEquals a b cs => obind (ev_sexp s a) (fun x => obind (ev_sexp s b) (fun y => Ok (iri_eqb x y cs)))
+    | BIriEquals a b cs => obind (ev_sexp s a) (fun x => obind (ev_sexp s b) (fun y => Ok (ideq x y cs)))
     | BCall f args =>
         match vals_of s args with
         | Some ds => match ce_func E f ds with Some o => o | None => Err end
@@ -389,9 +395,48 @@ Definition sem_nlv_equals (tbl : list gofn) (n w : nl) : outcome bool :=
 Fixpoint items_equal_t (tbl : list gofn) (eqtbl : list eqfn) (fuel : nat) (it w : item) : outcome bool :=
   match fuel with
   | O => OutOfFuel
-  | S n => sem_items_equal tbl (items_equal_t tbl eqtbl n) (equals_method_t eqtbl (items_equal_t tbl eqtbl n)) it w
+  | S n => sem_items_equal tbl (items_equal_t tbl eqtbl n) (EtG.equals_method_t ideq eqtbl (items_equal_t tbl eqtbl n)) it w
   end.
 
+End IdRel.
+End ItG.
+Notation ev_b := (ItG.ev_b iri_eqb).
+Notation range_of := ItG.range_of.
+Notation viewres := ItG.viewres.
+Notation VwRun := ItG.VwRun.
+Notation VwSkip := ItG.VwSkip.
+Notation VwOutside := ItG.VwOutside.
+Notation view_of := ItG.view_of.
+Notation exec := (ItG.exec iri_eqb).
+Notation bind_all := ItG.bind_all.
+Notation st0 := ItG.st0.
+Notation run_fn := (ItG.run_fn iri_eqb).
+Notation fn_named := ItG.fn_named.
+Notation n_swap := ItG.n_swap.
+Notation n_items_equal := ItG.n_items_equal.
+Notation n_ic_contains := ItG.n_ic_contains.
+Notation n_ic_equals := ItG.n_ic_equals.
+Notation n_iris_contains := ItG.n_iris_contains.
+Notation n_nlv_equals := ItG.n_nlv_equals.
+Notation n_lrv_equals := ItG.n_lrv_equals.
+Notation env_none := ItG.env_none.
+Notation run_named := (ItG.run_named iri_eqb).
+Notation struct_equals_name := ItG.struct_equals_name.
+Notation sem_swap := (ItG.sem_swap iri_eqb).
+Notation func_rec := ItG.func_rec.
+Notation env_rec := ItG.env_rec.
+Notation sem_contains := (ItG.sem_contains iri_eqb).
+Notation meth_contains := (ItG.meth_contains iri_eqb).
+Notation env_contains := (ItG.env_contains iri_eqb).
+Notation sem_iceq := (ItG.sem_iceq iri_eqb).
+Notation func_top := (ItG.func_top iri_eqb).
+Notation meth_top := (ItG.meth_top iri_eqb).
+Notation env_top := (ItG.env_top iri_eqb).
+Notation sem_items_equal := (ItG.sem_items_equal iri_eqb).
+Notation sem_iris_contains := (ItG.sem_iris_contains iri_eqb).
+Notation meth_lrv := ItG.meth_lrv.
+Notation sem_nlv_equals := (ItG.sem_nlv_equals iri_eqb).
+Notation items_equal_t := (ItG.items_equal_t iri_eqb).
 (* ------------------------------------------------------------------ the model's side of the condition *)
 (* the statement sequences the functions of Model/Equal.v (needs_swap, items_equal_body with object_branch,
    contains_m, itemcoll_equals with all_contained), Model/IriEq.v (iris_contains) and Model/Nlv.v (nl_equals) were
@@ -628,7 +673,9 @@ Definition as_item (t : gotype) (f : fid) (fs : fields) : option item :=
 
 (* the comparison `if !<C> { result = false; return nil }`: the value of C, the callee's model applied to the
    two properties in the order the shape says *)
+Module ItB.
 Section Block.
+  Variable ideq : bytes -> bytes -> bool -> bool.
   Variable rec : item -> item -> outcome bool.
 
   Definition comp_sem (c : wcomp) (cal : bytes) (t : gotype) (fo fw : fid) (ofs wfs : fields) : option (outcome bool) :=
@@ -655,7 +702,7 @@ Section Block.
         else None
     | KOEqualsWNoScheme =>                             (* o.G.Equals(w.F, false) *)
         if bytes_eqb cal c_iri_equals
-        then match t with TString => Some (Ok (iri_eqb (get_str fo ofs) (get_str fw wfs) false)) | _ => None end
+        then match t with TString => Some (Ok (ideq (get_str fo ofs) (get_str fw wfs) false)) | _ => None end
         else None
     | KWTimeEqualO =>                                  (* w.F.Equal(o.G) *)
         if bytes_eqb cal c_time_equal
@@ -674,7 +721,7 @@ Section Block.
         if bytes_eqb cal c_iri_equals
         then match t with
              | TItem => Some (if is_nil (get_item fo ofs) then Ok false
-                              else Ok (iri_eqb (lnk (get_item fw wfs)) (lnk (get_item fo ofs)) false))
+                              else Ok (ideq (lnk (get_item fw wfs)) (lnk (get_item fo ofs)) false))
              | _ => None
              end
         else None
@@ -688,6 +735,9 @@ Section Block.
     | Some true => comp_sem (rw_comp r) cal (rw_type r) (rw_ofield r) (rw_wfield r) ofs wfs
     end.
 End Block.
+End ItB.
+Notation comp_sem := (ItB.comp_sem iri_eqb).
+Notation raw_block_sem := (ItB.raw_block_sem iri_eqb).
 
 (* what the model expects a shape on a type to call *)
 Definition expected_guard_callee (g : wguard) : bytes :=
